@@ -32,8 +32,8 @@ theorem foldl_appendAt_getElem? (f : Nat → Nat) (g : Nat → K) (m : Nat) (W :
     | none => simp
     | some w =>
       by_cases h : f m = i
-      · simp [h, List.filter_cons]
-      · simp [h, List.filter_cons]
+      · simp [h]
+      · simp [h]
 
 theorem foldl_appendAt_length (f : Nat → Nat) (g : Nat → K) (m : Nat) (W : List (List K)) :
     ((List.range m).foldl (fun W t => appendAt W (f t) (g t)) W).length = W.length := by
@@ -59,7 +59,7 @@ theorem filter_range_up (a c i : Nat) :
     · by_cases h3 : a + (c + 1) = i
       · have h2 : a < i ∧ i ≤ a + (c + 1) := by omega
         have h4 : i - a - 1 = c := by omega
-        simp [h2, h3, h4] <;> omega
+        simp [h2, h3, h4]; omega
       · have h2 : ¬ (a < i ∧ i ≤ a + (c + 1)) := by omega
         simp [h1, h2, h3]
 
@@ -78,7 +78,7 @@ theorem filter_range_down (d c i : Nat) (hc : c ≤ d) :
     · by_cases h3 : d - (c + 1) = i
       · have h2 : i < d ∧ d ≤ i + (c + 1) := by omega
         have h4 : d - i - 1 = c := by omega
-        simp [h2, h3, h4] <;> omega
+        simp [h2, h3, h4]; omega
       · have h2 : ¬ (i < d ∧ d ≤ i + (c + 1)) := by omega
         simp [h1, h2, h3]
 
